@@ -70,6 +70,8 @@ func (ml *MemLogger) GetLogs() []*observer.LoggedEntry {
 	var index = BufferSize - 1
 	mc := ml.core.owner()
 	logs := make([]*observer.LoggedEntry, BufferSize)
+	mc.mu.RLock()
+	defer mc.mu.RUnlock()
 	mc.r.Do(func(val interface{}) {
 		if val != nil {
 			logs[index] = val.(*observer.LoggedEntry)
@@ -139,17 +141,8 @@ func (mc *MemCore) Write(ent zapcore.Entry, fields []zapcore.Field) error {
 	mc.mu.Lock()
 	defer mc.mu.Unlock()
 
-	var entry *observer.LoggedEntry
-	r := mc.r
-	v := r.Value
-	if v == nil {
-		entry = &observer.LoggedEntry{}
-		r.Value = entry
-	} else {
-		entry = v.(*observer.LoggedEntry)
-	}
-	entry.Entry = ent
-	entry.Context = fields
+	// a new entry every time: entries handed out by GetLogs are never modified
+	mc.r.Value = &observer.LoggedEntry{Entry: ent, Context: fields}
 	mc.r = mc.r.Next()
 	return nil
 }
